@@ -497,6 +497,31 @@ func guardListing(c *Ctx) {
 	if n < 3 {
 		c.S.Undecided("C14", "GUARD-LISTING", "floor", "-", fmt.Sprintf("only %d nested loops over the operations index found (confirmed by hand: 3)", n))
 	}
+	// ENC-FORMAT: what the queries format comes from the document (paths, methods, ids): it is an operand of the
+	// formatting call, never (part of) its format string — a '%' in a path would be read as a verb.
+	for _, fi := range specQueryMethods(c) {
+		info := c.info(fi)
+		k := 0
+		for _, call := range calls(fi.Decl.Body) {
+			callee := c.P.CalleeAny(fi, call)
+			if callee == nil || callee.Pkg() == nil || (callee.Pkg().Path() != "fmt" && callee.Pkg().Path() != "log") || !strings.HasSuffix(callee.Name(), "f") {
+				continue
+			}
+			sig, _ := callee.Type().(*types.Signature)
+			if sig == nil || !sig.Variadic() || sig.Params().Len() < 2 {
+				continue
+			}
+			fidx := sig.Params().Len() - 2 // the parameter before the variadic operands
+			if fidx >= len(call.Args) || !core.IsString(sig.Params().At(fidx).Type()) {
+				continue
+			}
+			k++
+			tv, isC := info.Types[call.Args[fidx]]
+			c.S.Decide(isC && tv.Value != nil, "C14", "ENC-FORMAT", fmt.Sprintf("%s/%s#%d", fi.QName(), callee.Name(), k), c.P.Pos(call.Pos()),
+				"the format string is a constant; document strings are operands",
+				"the format string "+exprStr(call.Args[fidx])+" is not a constant: a path, method or id containing '%' is interpreted as formatting verbs and the listed string no longer agrees with the document")
+		}
+	}
 }
 
 func init() {
@@ -960,5 +985,138 @@ func (c *Ctx) noRawParamLists(merge *core.FuncInfo) {
 	}
 	if n < 2 {
 		c.S.Note("GUARD-PLACEHOLDER/returns: fewer than two list-returning exits found above the parameter merge")
+	}
+}
+
+func init() {
+	register(Rule{
+		Name:  "GUARD-OPFOUND",
+		Props: []string{"C15"},
+		Doc:   "parameters are merged into the result of a lookup only once the operation asked for is known to exist",
+		Run:   guardOpFound,
+	})
+}
+
+// guardOpFound (C15): "asking for a method, path or operation id that designates no operation yields an empty
+// result". Every call of the merge function in a lookup therefore happens under a fact that establishes the
+// operation: the flag of a (*spec.Operation, bool) lookup, a non-nil test of an operation, or the match of an
+// operation's id. For a merge inside a local closure the fact is looked for at every call of the closure.
+func guardOpFound(c *Ctx) {
+	merge, _, _, _ := c.paramMergeFn()
+	if merge == nil {
+		c.S.Undecided("C15", "GUARD-OPFOUND", "anchor", "-", "no parameter merge function found")
+		return
+	}
+	isOpIn := func(info *types.Info, e ast.Expr) bool {
+		t := info.TypeOf(e)
+		return t != nil && core.IsPointer(t) && core.IsSpecType(t, "Operation")
+	}
+	opFact := func(fi *core.FuncInfo, at ast.Node) bool {
+		info := c.info(fi)
+		for _, cd := range c.conds(fi, at) {
+			if cd.Kind != core.CondBool {
+				continue
+			}
+			e := core.Unparen(cd.Expr)
+			// the flag of a (operation, found) pair
+			if o := core.ObjOf(info, e); o != nil && !cd.Neg {
+				for _, d := range c.P.Locals(fi).Defs[o] {
+					if d.Kind != core.DefMulti || d.Index != 1 {
+						continue
+					}
+					if call, ok := core.Unparen(d.Expr).(*ast.CallExpr); ok {
+						if tup, isTup := info.TypeOf(call).(*types.Tuple); isTup && tup.Len() == 2 && core.IsPointer(tup.At(0).Type()) && core.IsSpecType(tup.At(0).Type(), "Operation") {
+							return true
+						}
+					}
+					// op, ok := index[method][path]
+					if ix, ok := core.Unparen(d.Expr).(*ast.IndexExpr); ok && isOpIn(info, ix) {
+						return true
+					}
+				}
+			}
+			if x, nonNil, ok := core.NilTest(info, cd); ok && nonNil && isOpIn(info, x) {
+				return true
+			}
+			// <operation>.ID == <requested id>
+			if be, ok := e.(*ast.BinaryExpr); ok && (be.Op == token.EQL && !cd.Neg || be.Op == token.NEQ && cd.Neg) {
+				for _, side := range []ast.Expr{be.X, be.Y} {
+					if sel, isSel := core.Unparen(side).(*ast.SelectorExpr); isSel && sel.Sel.Name == "ID" && isOpIn(info, sel.X) {
+						return true
+					}
+				}
+			}
+		}
+		return false
+	}
+	// established: the fact holds at the node, or — for a local closure or an unexported helper — at every place
+	// the closure / helper is called from
+	var established func(fi *core.FuncInfo, at ast.Node, depth int) (bool, string)
+	established = func(fi *core.FuncInfo, at ast.Node, depth int) (bool, string) {
+		if opFact(fi, at) {
+			return true, ""
+		}
+		if depth > 3 {
+			return false, ""
+		}
+		info := c.info(fi)
+		pm := c.parents(fi)
+		if lit, _ := pm.Enclosing(at, func(nd ast.Node) bool { _, l := nd.(*ast.FuncLit); return l }).(*ast.FuncLit); lit != nil {
+			var litObj types.Object
+			if as, isAs := pm[lit].(*ast.AssignStmt); isAs && len(as.Lhs) == 1 {
+				litObj = core.ObjOf(info, as.Lhs[0])
+			}
+			if litObj == nil {
+				return false, ""
+			}
+			sites := 0
+			for _, use := range calls(fi.Decl.Body) {
+				if core.ObjOf(info, use.Fun) != litObj {
+					continue
+				}
+				sites++
+				if ok, _ := established(fi, use, depth+1); !ok {
+					return false, " (closure called at " + c.P.Pos(use.Pos()) + " without such a fact)"
+				}
+			}
+			return sites > 0, ""
+		}
+		if fi.Obj.Exported() {
+			return false, ""
+		}
+		sites := 0
+		for _, caller := range c.P.SortedFuncs() {
+			for _, use := range calls(caller.Decl.Body) {
+				if c.P.StaticCallee(caller, use) != fi.Obj {
+					continue
+				}
+				sites++
+				if ok, _ := established(caller, use, depth+1); !ok {
+					return false, " (" + fi.Name() + " is called at " + c.P.Pos(use.Pos()) + " without such a fact)"
+				}
+			}
+		}
+		return sites > 0, ""
+	}
+	n := 0
+	for _, fi := range c.P.SortedFuncs() {
+		if fi == merge {
+			continue
+		}
+		k := 0
+		for _, call := range calls(fi.Decl.Body) {
+			if c.P.StaticCallee(fi, call) != merge.Obj {
+				continue
+			}
+			n++
+			k++
+			ok, where := established(fi, call, 0)
+			c.S.Decide(ok, "C15", "GUARD-OPFOUND", fmt.Sprintf("%s/merge#%d", fi.QName(), k), c.P.Pos(call.Pos()),
+				"parameters are merged only once the operation asked for is known to exist (found flag, non-nil operation, or id match)",
+				"parameters are merged into the result although nothing establishes that the operation asked for exists"+where+": a method, path or id that designates no operation yields the path-level parameters instead of an empty result")
+		}
+	}
+	if n < 3 {
+		c.S.Undecided("C15", "GUARD-OPFOUND", "floor", "-", fmt.Sprintf("only %d merge calls found in the lookups (confirmed by hand: 4)", n))
 	}
 }
